@@ -80,8 +80,9 @@ class State:
         self.engine = engine
         self.path = path
         self.pc = []
-        self.solver = z3.Solver()
+        self.solver = z3.Solver()          # quantifier-free facts only: branch feasibility, rope decisions
         self.solver.set("timeout", FEAS_MS)
+        self.qsolver = None                # all facts, created when the first quantified fact is assumed
         self.heap = {}
         self.next_ref = 1
         self.counter = {}
@@ -119,7 +120,17 @@ class State:
         if c is False:
             raise PathEnd()
         self.pc.append(c)
-        self.solver.add(c)
+        if smt._has_quant(c):
+            if self.qsolver is None:
+                self.qsolver = z3.Solver()
+                self.qsolver.set("timeout", 4000)
+                for h in self.pc[:-1]:
+                    self.qsolver.add(h)
+            self.qsolver.add(c)
+        else:
+            self.solver.add(c)
+            if self.qsolver is not None:
+                self.qsolver.add(c)
 
     def check_sat(self, extra=None):
         r = self.solver.check(*([extra] if extra is not None else []))
@@ -179,7 +190,8 @@ class State:
         goal = zbool(goal)
         import time as _t
         t0 = _t.time()
-        if self.check_sat(z3.Not(goal)) == z3.unsat:
+        full = self.qsolver if (self.qsolver is not None) else self.solver
+        if full.check(z3.Not(goal)) == z3.unsat:
             # closed by the path solver itself: quantifier-free hypotheses only (no axioms were needed)
             self.obligations.append(dict(name=name, trivial=True, backend="z3-path", secs=_t.time() - t0))
             self.assume(goal)
